@@ -508,6 +508,9 @@ MPL_KW = {
 }
 
 
+MPL_FILLSTYLES = {'full', 'left', 'right', 'bottom', 'top', 'none'}
+
+
 def r2c(ctx):
     """every key a RegionVisual may hold reaches the artist under a name that artist accepts, or is dropped: as_artist must
     return an artist for every region, whatever valid visual attributes it carries (e.g. after reading a CRTF file).
@@ -539,6 +542,22 @@ def r2c(ctx):
                     "carrying them (e.g. any region parsed from a CRTF line with symsize=, labelcolor=, usetex=, ...)", g.loc())
         else:
             ctx.ok(art, f'{len(valid)} visual keys -> {sorted(got.keys())}: all keywords of the artist')
+    # values: a stored `fill` flag reaches a Line2D as `fillstyle`, which takes one of matplotlib's style names, not a flag
+    for flag in (True, False):
+        ev = Evaluator(m, hooks={dflt.qualname: lambda e, a, k: DictV([{}])})
+        self_ = Obj('RegionVisual', {'__data__': DictV([{'fill': Const(flag)}])}, 'self', rv)
+        out = ev.run(g, [self_, Const('Line2D')], {})
+        ctx.need(len(out.returns) == 1 and not out.raises and isinstance(out.returns[0][1], DictV)
+                 and not out.returns[0][1].has_symbolic(), f'{g.qualname}(Line2D, fill={flag})', 'not reducible')
+        got = out.returns[0][1]
+        fs = got.get('fillstyle') if 'fillstyle' in got.keys() else None
+        if fs is not None and not (isinstance(fs, Const) and fs.v in MPL_FILLSTYLES):
+            ctx.bad('Line2D', f'fillstyle-value:{flag}',
+                    f'a point region whose visual holds fill={flag} hands matplotlib.Line2D fillstyle={show(fs, 40)}; fillstyle '
+                    f'takes one of {sorted(MPL_FILLSTYLES)}, so as_artist raises ValueError for every point region read from a '
+                    'DS9 file with fill=', g.loc())
+        else:
+            ctx.ok(f'Line2D fill={flag}', f'fillstyle={show(fs, 20) if fs is not None else "absent"}')
 
 
 # matplotlib keywords that override *other* keywords of the same artist when both are given (trusted): a Patch's `color`
@@ -600,7 +619,7 @@ RULES = [
     RuleDef('R1', 'artist constructor arguments (8 artists)', r1, 8),
     RuleDef('R2', 'caller kwargs override the visual defaults', r2, 8),
     RuleDef('R2b', 'caller keyword vs renamed stored key (matplotlib alias table)', r2b, 3),
-    RuleDef('R2c', 'every valid visual key is accepted by the artist or dropped', r2c, 3),
+    RuleDef('R2c', 'every valid visual key is accepted by the artist or dropped; a fill flag becomes a fill style name', r2c, 5),
     RuleDef('R2d', 'no stored keyword overrides a caller keyword of another name (Patch color vs edgecolor/facecolor)', r2d, 1),
     RuleDef('R3', 'annulus path: guard, hole orientation, roles, delegation', r3, 4),
     RuleDef('R4', 'as_artist does not modify the region, the origin or the keywords it is given (C13.R1 on the artist path)', r4, 1),
